@@ -8,7 +8,10 @@ the universe, then keys() and with_descriptor() per kind) is put to the REAL Met
 Documents are rendered from abstract descriptions by string templates (no pysaml2 element
 class), signed through the xmlsec1 stand-in, and served to the store as inline text, local
 files, MetaDataExtern behind a stub http object, or MetaDataMDX behind a stub `requests`.
+Optional keys of a source specification are written only when the case spells them; the store's own
+check_validity and the time zone of the process are part of the case.
 """
+import calendar
 import hashlib
 import io
 import itertools
@@ -16,6 +19,7 @@ import os
 import shutil
 import sys
 import tempfile
+import time as _time
 from xml.sax.saxutils import escape, quoteattr
 
 from harness import env, fixtures, render, world
@@ -26,24 +30,36 @@ PARALLEL = 6
 IMPORTS = "From Verif Require Import C11.Model C11.Spec C11.Corr."
 CASE_TYPE = "C11.Corr.case"
 RUNNER = "C11.Corr.run"
-FINDING_CLASSES = {1: "C11-F1", 2: "C11-F2", 3: "C11-F3", 4: "C11-F4", 5: "C11-F5", 6: "C11-F6", 7: "C11-F7"}
+FINDING_CLASSES = {1: "C11-F1", 2: "C11-F2", 3: "C11-F3", 4: "C11-F4", 5: "C11-F5", 6: "C11-F6", 7: "C11-F7",
+                   8: "C11-F8"}
 RULE = (
     "histories over random EntityDescriptor/EntitiesDescriptor documents (1-6 entities from a pool of 3 ids so that "
     "ids repeat, 1-3 role descriptors of the 5 role kinds, protocolSupportEnumeration in {2.0, 1.1, 1.1+2.0, x+2.0, "
     "1.0+1.1}, 0-4 endpoints per service over 3 bindings, KeyDescriptors use in {signing, encryption, absent}, "
     "validUntil in {absent, past, soon, far} on entities and groups, entity-category / registration extensions, "
     "RequestedAttributes) spread over 1-3 sources of kinds inline / local file / MetaDataExtern (stub http) / MDQ (stub "
-    "requests); complete product source kind x configuration style x signature state {unsigned, valid, tampered(2 ways), "
+    "requests); optional keys of a source specification are written only when the case spells them (check_validity "
+    "{absent, True, False}, node_name, cert {absent, '', None, file}, freshness_period, positional MDQ url) and the "
+    "store's own check_validity is {on, off}: complete product source kind x route (load / imp with a dictionary / "
+    "list-style item) x check_validity spelling x store switch x {group with an expired, a current and an undated "
+    "entity; single expired entity; group past its validUntil after a good source}, each followed by a reload of the "
+    "same specification; complete product source kind x configuration style x signature state {unsigned, valid, tampered(2 ways), "
     "wrong key} x cert configured x node_name x document shape; reload histories in which the k-th of n<=3 elements "
     "fails for every k and every failure kind {missing, malformed, wrong root, http error (status 500 WITH a usable body), "
-    "bad signature, wrong key, expired group, unsigned}; MDQ histories with ticks across the freshness period and refresh "
+    "bad signature, wrong key, expired group, unsigned, unusable specification}; MDQ histories with ticks across the freshness period and refresh "
     "failures; cold-MDQ histories (MDQ only / before / after a static source with the same ids); the witness histories "
-    "of C11/Facts.v.  After EVERY step the whole query set (27 lookups per entity of the universe + keys() + "
+    "of C11/Facts.v; the PROCESS TIME ZONE: a fifth of all histories runs in a POSIX zone other than UTC (fixed offsets "
+    "+14 ... -12, +5:45; daylight-saving zones of both hemispheres and a half-hour one), and the family 'zone' puts "
+    "now + freshness_period just before / at the start of / inside / at the end of / after the stretch of UTC readings "
+    "that the local calendar skips, for periods {10 min, 1 h, 12 h}, with validUntil one second before / at / after now.  "
+    "After EVERY step the whole query set (27 lookups per entity of the universe + keys() + "
     "with_descriptor() for 6 kinds) is put in the case's ORDER — as listed (__getitem__ first), 'service first' "
     "(keys / with_descriptor, then per entity service lookups ... and __getitem__ last) or a seeded permutation, a third "
     "each — so that cold MDQ entities are met first by every kind of lookup; every answer is compared.  non-trivial = distinct (tag, kinds of "
     "sources, outcome flags, multiset of answer shapes)")
-TRUSTED = ["xmlsec1 stand-in (harness/standin/xmlsec1.py)", "metadata renderer and answer abstraction in harness/c11.py",
+TRUSTED = ["xmlsec1 stand-in (harness/standin/xmlsec1.py)",
+           "libc's calendar for the case's zone (time.mktime / time.localtime under TZ): the table of daylight-saving gaps in "
+           "the case (Model.f_gaps) is measured through it by harness.c11.zone_gaps, and re-measured in observe()", "metadata renderer and answer abstraction in harness/c11.py",
            "stub http / requests objects (status_code, content)",
            "translator v2 (harness/py2coq2.py + Base/Py2.v; value semantics, no aliasing) for the functions re-translated on "
            "every run into coq/gen/C11Src2.v and proved equal to the model in C11/Source2.v: "
@@ -64,9 +80,13 @@ ASSUMPTIONS = [
     "protocolSupportEnumeration; a list-style imp() item names one source",
     "MetaDataMD (json dump) and MetaDataLoader sources are outside the quantifier (MetaDataLoader cannot be "
     "constructed at all: SAMLError 'No file specified')",
+    "an unusable source specification (a remote source named by a bare string, an unknown source type, an unknown loader "
+    "class, a list-style item without 'class') is a source that yields no bytes: the load fails",
     "signature verification is the stand-in's; its result enters the model as data (signature state of the case)",
     "load('inline', text) and load('local', file) have no certificate parameter: a certificate counts as configured only "
     "where the API accepts one (list-style items, remote, mdq)",
+    "finding C11-F8 (open): in a zone with daylight saving an MDQ entry whose expiration date falls into the skipped hour "
+    "is served up to an hour too long; the theorems about [cur] are proved for zones without such a gap (f_gaps = [])",
     "the finding class of a failing history is that of its FIRST failing position (heuristic attribution, Spec.query_class); "
     "detection does not depend on it: any deviation from the model is reported"]
 
@@ -421,7 +441,11 @@ class _Run:
 
         self.M = M
         conf = _config()
-        self.mds = MetadataStore(conf.attribute_converters, conf)
+        # the store-wide switch is a constructor argument (default True); given only when the case switches it off
+        if case.get("scv", True):
+            self.mds = MetadataStore(conf.attribute_converters, conf)
+        else:
+            self.mds = MetadataStore(conf.attribute_converters, conf, check_validity=False)
         self.http = _Http()
         self.mds.http = self.http
         self.req = _Requests()
@@ -472,22 +496,41 @@ class _Run:
         kind = src["kind"]
         if kind in ("inline", "file"):
             return name
+        # Optional keys are written only when the case SPELLS them: {"url": ...} alone is the ordinary way to
+        # configure a remote / MDQ source, and then the defaults apply (check_validity True, node_name None,
+        # no certificate, freshness period 12 h).  src["cv"]: None = key absent, True / False = given.
+        if src.get("bad"):
+            # an unusable specification: a remote source named by a bare string (load() wants url=...),
+            # or a source type that does not exist
+            return name if src["bad"] == "nourl" else {"url": name}
         if kind == "remote":
-            v = {"url": name, "check_validity": bool(src["cv"])}
+            v = {"url": name}
+            if src["cv"] is not None:
+                v["check_validity"] = bool(src["cv"])
             if src["cert"]:
                 v["cert"] = CERT_FILE
+            elif src.get("cert_sp") == "empty":
+                v["cert"] = ""              # "no certificate", spelled out
+            elif src.get("cert_sp") == "none":
+                v["cert"] = None
             if src["node"] is not None:
                 v["node_name"] = ENS_NODE if src["node"] else EN_NODE
             return v
+        if src.get("form") == "pos" and not src["cert"] and src["period"] == 43200:
+            return name                      # load("mdq", url) / {"mdq": [url]}: the positional form
         v = {"url": name}
         if src["cert"]:
             v["cert"] = CERT_FILE
-        if src["period"] != 43200:
+        elif src.get("cert_sp") == "none":
+            v["cert"] = None
+        if src["period"] != 43200 or src.get("period_sp"):
             v["freshness_period"] = "PT%dS" % src["period"]
         return v
 
     def new_item(self, src, name):
         key = (name, CERT_FILE) if src["cert"] else (name,)
+        if src.get("bad"):      # unusable list-style items: no such loader class / no "class" at all
+            return {"class": "saml2.mdstore.NoSuchLoader", "metadata": [key]} if src["bad"] == "nourl" else {"metadata": [key]}
         return {"class": LOADER_CLASS[src["kind"]], "metadata": [key]}
 
     def spec(self, ns, items):
@@ -496,7 +539,8 @@ class _Run:
             return [self.new_item(src, name) for src, name in staged]
         spec = {}
         for src, name in staged:
-            spec.setdefault(OLD_TYP[src["kind"]], []).append(self.old_val(src, name))
+            typ = "nosuchtype" if src.get("bad") == "notype" else OLD_TYP[src["kind"]]
+            spec.setdefault(typ, []).append(self.old_val(src, name))
         return spec
 
     def do(self, step):
@@ -516,10 +560,11 @@ class _Run:
             else:
                 name = self.stage(src, fetch)
                 v = self.old_val(src, name)
+                typ = "nosuchtype" if src.get("bad") == "notype" else OLD_TYP[src["kind"]]
                 if isinstance(v, dict):
-                    call = lambda: self.mds.load(OLD_TYP[src["kind"]], **v)
+                    call = lambda: self.mds.load(typ, **v)
                 else:
-                    call = lambda: self.mds.load(OLD_TYP[src["kind"]], v)
+                    call = lambda: self.mds.load(typ, v)
         else:
             spec = self.spec(step["ns"], step["items"])
             call = lambda: self.mds.reload(spec)
@@ -583,6 +628,96 @@ def regenerate_tables(ctx):
             "discharged": info["discharged"], "untranslatable": info["untranslatable"], "source2": info}
 
 
+# ------------------------------------------------------------------------------------ the process time zone
+# POSIX TZ strings (no tz database needed).  The zones with daylight saving have an hour (Lord Howe: half an hour)
+# per year that does not exist as local wall-clock time.
+ZONES_DST = ["PST8PDT,M3.2.0,M11.1.0", "AEST-10AEDT,M10.1.0,M4.1.0/3", "LHST-10:30LHDT-11,M10.1.0,M4.1.0"]
+ZONES_FIXED = ["JST-9", "EST5", "XXX-14", "YYY+12", "NPT-5:45", "UTC0"]
+
+
+class _Zone:
+    """with _Zone(tz): the process runs in that zone (None = the starting zone); restored afterwards"""
+
+    def __init__(self, tz):
+        self.tz = tz
+
+    def __enter__(self):
+        self.old = os.environ.get("TZ")
+        if self.tz is not None:
+            os.environ["TZ"] = self.tz
+            _time.tzset()
+        return self
+
+    def __exit__(self, *a):
+        if self.tz is not None:
+            if self.old is None:
+                os.environ.pop("TZ", None)
+            else:
+                os.environ["TZ"] = self.old
+            _time.tzset()
+
+
+def _roundtrip(t):
+    """libc only: the UTC reading of t taken as local wall-clock time, through mktime and back"""
+    f = tuple(_time.gmtime(t)[:6])
+    return calendar.timegm(tuple(_time.localtime(_time.mktime(f + (0, 0, -1)))[:6]))
+
+
+_GAPS = {}
+
+
+def zone_gaps(tz, lo, hi):
+    """[(start, length, shift)]: the instants in [lo, hi] whose UTC reading does not exist as local time in the zone,
+    and where libc puts them.  Measured through libc (time.mktime / time.localtime), not through pysaml2."""
+    if tz is None:
+        return []
+    key = (tz, lo, hi)
+    if key in _GAPS:
+        return _GAPS[key]
+    out = []
+    with _Zone(tz):
+        def edge(a, b):          # _roundtrip is the identity at exactly one of a, b: first instant of b's kind
+            while b - a > 1:
+                m = (a + b) // 2
+                if (_roundtrip(m) != m) == (_roundtrip(b) != b):
+                    b = m
+                else:
+                    a = m
+            return b
+        step, t, start = 900, lo, None
+        prev = lo
+        while t <= hi + step:
+            bad = _roundtrip(t) != t
+            if bad and start is None:
+                start = edge(prev, t) if t > lo else t
+            if not bad and start is not None:
+                end = edge(prev, t)
+                sh = _roundtrip(start) - start
+                if any(_roundtrip(x) - x != sh for x in (start, (start + end) // 2, end - 1)):
+                    raise RuntimeError("zone %s: uneven shift inside a gap" % tz)
+                out.append([start, end - start, sh])
+                start = None
+            prev = t
+            t += step
+    _GAPS[key] = out
+    return out
+
+
+def zone_window(t0):
+    return t0 - 86400, t0 + 4 * 86400
+
+
+def set_zone(case, tz):
+    case["tz"] = tz
+    case["gaps"] = zone_gaps(tz, *zone_window(case["t0"]))
+    return case
+
+
+def year_gap(tz, year=2024):
+    g = zone_gaps(tz, calendar.timegm((year, 1, 1, 0, 0, 0)), calendar.timegm((year, 12, 31, 0, 0, 0)))
+    return g[0]
+
+
 CLOCK = None
 _WORK = None
 
@@ -603,17 +738,21 @@ def observe(case):
     CLOCK.set(case["t0"])
     olderr = sys.stderr
     sys.stderr = io.StringIO()          # do_entity_descriptor prints duplicates to stderr
-    run = _Run(case)
-    try:
-        out = []
-        for step in case["steps"]:
-            o = run.do(step)
-            o += ask_all(run.mds, case["universe"], case.get("order"))
-            out.append(o)
-        return {"steps": out}
-    finally:
-        sys.stderr = olderr
-        run.close()
+    tz = case.get("tz") or "UTC0"       # always set: the observation is a function of the case alone
+    if case.get("gaps", []) != zone_gaps(tz, *zone_window(case["t0"])):
+        raise RuntimeError("the case's gap table is not what libc says about zone %s" % tz)
+    with _Zone(tz):
+        run = _Run(case)
+        try:
+            out = []
+            for step in case["steps"]:
+                o = run.do(step)
+                o += ask_all(run.mds, case["universe"], case.get("order"))
+                out.append(o)
+            return {"steps": out}
+        finally:
+            sys.stderr = olderr
+            run.close()
 
 
 # ------------------------------------------------------------------------------------ Coq terms
@@ -676,22 +815,30 @@ def c_fetch(f):
 KIND = {"inline": "KInline", "file": "KFile", "remote": "KRemote", "mdq": "KMdq"}
 
 
-def c_src(s):
+def c_src(s, scv=True, via_imp=False):
+    """scv: the store's check_validity; via_imp: the specification is handed to imp() (reload() always does)"""
     node = "None" if s["node"] is None else "(Some %s)" % cq(bool(s["node"]))
-    return "(mksp %s %s %s %s %s %s)" % (KIND[s["kind"]], cq(s["key"]), cq(bool(s["cert"])), cq(bool(s["cv"])), node,
-                                        cq(int(s["period"])))
+    cv = "None" if s["cv"] is None else "(Some %s)" % cq(bool(s["cv"]))
+    return "(mksp %s %s %s %s %s %s %s %s)" % (KIND[s["kind"]], cq(s["key"]), cq(bool(s["cert"])), cv, node,
+                                              cq(int(s["period"])), cq(bool(scv)), cq(bool(via_imp)))
 
 
-def c_op(step):
+def c_fetch_of(src, f):
+    """an unusable source specification yields no bytes, whatever sits at the address"""
+    return "FMissing" if src.get("bad") else c_fetch(f)
+
+
+def c_op(step, scv=True):
     op = step["op"]
     if op == "tick":
         return "(OTick %s)" % cq(int(step["dt"]))
     if op == "server":
         return "(OServer %s)" % clist("(%s, %s)" % (cs(e), c_fetch(f)) for e, f in step["tbl"])
     if op == "load":
-        return "(OLoad %s %s %s)" % (cq(bool(step["ns"])), c_src(step["src"]), c_fetch(step["fetch"]))
+        via_imp = bool(step["ns"] or step.get("api") == "imp")
+        return "(OLoad %s %s %s)" % (cq(bool(step["ns"])), c_src(step["src"], scv, via_imp), c_fetch_of(step["src"], step["fetch"]))
     return "(OReload %s %s)" % (cq(bool(step["ns"])),
-                                clist("(%s, %s)" % (c_src(s), c_fetch(f)) for s, f in step["items"]))
+                                clist("(%s, %s)" % (c_src(s, scv, True), c_fetch_of(s, f)) for s, f in step["items"]))
 
 
 def c_roles(rs):
@@ -767,9 +914,10 @@ def coq_case(case, obs):
             else:
                 terms.append([1, t])
         prev = qs
-        steps.append("(%s, %s, %s)" % (c_op(fix_src(step)), clist(c_answer(a) for a in flag),
+        steps.append("(%s, %s, %s)" % (c_op(fix_src(step), case.get("scv", True)), clist(c_answer(a) for a in flag),
                                        clist("(%d, %s)" % (n, t) for n, t in terms)))
-    return "(%s, %s, %s, %s)" % (cq(int(case["t0"])), clist(cs(e) for e in case["universe"]),
+    gaps = clist("(%s, %s, %s)" % (cq(int(a)), cq(int(l)), cq(int(sh))) for a, l, sh in case.get("gaps", []))
+    return "(%s, %s, %s, %s, %s)" % (cq(int(case["t0"])), gaps, clist(cs(e) for e in case["universe"]),
                                  clist("%d" % i for i in case.get("order") or []), clist(steps))
 
 
@@ -848,8 +996,29 @@ def g_doc(rng, t0, ids=None, group=None, n=None, invalid_ok=True):
             "ents": [g_ent(rng, rng.choice(ids), t0, invalid_ok) for _ in range(n)]}
 
 
-def g_src(rng, kind, key, cert=False, cv=True, node=None, period=43200):
-    return {"kind": kind, "key": key, "cert": cert, "cv": cv, "node": node, "period": period}
+def g_src(rng, kind, key, cert=False, cv="any", node=None, period=43200):
+    """cv = the source's check_validity AS SPELLED: None = the key is absent (the ordinary way), True / False = given;
+    "any" / "on" draw a spelling (remote sources only: no other kind of specification has the key) - "on" among those
+    that leave checking on.  The other optional keys get a drawn spelling too (absent / "" / None certificate,
+    positional MDQ url, default freshness period written out); these do not change what the source is."""
+    if cv in ("any", "on"):
+        if rng is None or kind != "remote":
+            cv = None
+        else:
+            cv = rng.choice([None, None, None, True, False] if cv == "any" else [None, None, True])
+    src = {"kind": kind, "key": key, "cert": cert, "cv": cv, "node": node, "period": period}
+    if rng is not None and kind == "remote" and not cert:
+        sp = rng.choice([None, None, None, "empty", "none"])
+        if sp:
+            src["cert_sp"] = sp
+    if rng is not None and kind == "mdq":
+        if rng.random() < 0.3:
+            src["form"] = "pos"
+        if rng.random() < 0.3:
+            src["period_sp"] = True
+        if not cert and rng.random() < 0.2:
+            src["cert_sp"] = "none"
+    return src
 
 
 def doc_fetch(doc, sig="unsigned", tamper=0):
@@ -866,11 +1035,12 @@ def load(src, fetch, ns=False, api="load"):
 
 def reload_(items, ns=False):
     if not ns:   # a dict-style spec groups the sources by type: keep the model's order = the dict's order
+        gk = lambda s: s["kind"] + ("!" if s.get("bad") == "notype" else "")      # the dict's key for the source
         order = []
         for s, _f in items:
-            if s["kind"] not in order:
-                order.append(s["kind"])
-        items = sorted(items, key=lambda it: order.index(it[0]["kind"]))
+            if gk(s) not in order:
+                order.append(gk(s))
+        items = sorted(items, key=lambda it: order.index(gk(it[0])))
     return {"op": "reload", "ns": ns, "items": [[s, f] for s, f in items]}
 
 
@@ -884,18 +1054,25 @@ def fam_doc(rng, n, t0=T0):
     for i in range(n):
         ns = rng.random() < 0.4
         kind = static_kind(rng, ns)
-        cv = True if kind != "remote" or ns else rng.random() < 0.7
-        src = g_src(rng, kind, "s1", cv=cv)
-        out.append(mk("doc", [load(src, doc_fetch(g_doc(rng, t0)), ns, rng.choice(["load", "imp"]))], t0))
+        src = g_src(rng, kind, "s1")
+        c = mk("doc", [load(src, doc_fetch(g_doc(rng, t0)), ns, rng.choice(["load", "imp"]))], t0)
+        if rng.random() < 0.15:
+            c["scv"] = False
+        out.append(c)
     return out
 
 
-FAIL_KINDS = ["missing", "garbage", "wrongroot", "http", "tampered", "wrongkey", "tooold", "unsigned"]
+FAIL_KINDS = ["missing", "garbage", "wrongroot", "http", "tampered", "wrongkey", "tooold", "unsigned", "badspec"]
 
 
 def failing(rng, kind_of_failure, t0, key, ns):
     """a (src, fetch) pair whose load fails in the given way (wrongroot / unsigned: the 'soft' ways)"""
     f = kind_of_failure
+    if f == "badspec":      # the address holds a perfectly usable document; the SPECIFICATION is unusable
+        d = g_doc(rng, t0, invalid_ok=False)
+        if d["group"]:
+            d["vu"] = None
+        return dict(g_src(rng, "remote", key), bad=rng.choice(["nourl", "notype"])), doc_fetch(d)
     if f in ("missing", "http"):
         kind = rng.choice(["file", "remote"]) if f == "missing" else "remote"
         return g_src(rng, kind, key), {"st": f}
@@ -904,7 +1081,7 @@ def failing(rng, kind_of_failure, t0, key, ns):
     if f == "tooold":
         d = g_doc(rng, t0, group=True, invalid_ok=False)
         d["vu"] = t0 - 5
-        return g_src(rng, rng.choice(["inline", "file", "remote"]), key, cv=True), doc_fetch(d)
+        return g_src(rng, rng.choice(["inline", "file", "remote"]), key, cv="on"), doc_fetch(d)
     d = g_doc(rng, t0, invalid_ok=False)
     if d["group"]:
         d["vu"] = None
@@ -950,7 +1127,10 @@ def fam_multi(rng, n, t0=T0):
             ns = rng.random() < 0.3
             src, fetch = good(rng, t0, "s%d" % rng.randint(1, 3), ns)
             steps.append(load(src, fetch, ns, rng.choice(["load", "imp"])))
-        out.append(mk("multi", steps, t0))
+        c = mk("multi", steps, t0)
+        if rng.random() < 0.15:
+            c["scv"] = False
+        out.append(c)
     return out
 
 
@@ -1031,6 +1211,9 @@ def fam_mdq(rng, n, t0=T0):
             src, fetch = good(rng, t0, "s1", False)
             steps.append(load(src, fetch, False, "load"))
         steps.append(mdq)
+        if rng.random() < 0.25:       # a second MDQ source (same server) with the other certificate setting / period
+            steps.append(load(g_src(rng, "mdq", "q2", cert=not cert, period=rng.choice([43200, 3600, 600])),
+                              {"st": "missing"}, False, rng.choice(["load", "imp"])))
         if pos == "first":
             src, fetch = good(rng, t0, "s1", False)
             steps.append(load(src, fetch, False, "load"))
@@ -1038,7 +1221,10 @@ def fam_mdq(rng, n, t0=T0):
             steps.append({"op": "tick", "dt": rng.choice([100, period - 100, period + 1, period + 1, 2 * period])})
             if rng.random() < 0.7:
                 steps.append({"op": "server", "tbl": [[e, g_mdq_resp(rng, e, t0, cert)] for e in IDS if rng.random() < 0.85]})
-        out.append(mk("mdq", steps, t0))
+        c = mk("mdq", steps, t0)
+        if rng.random() < 0.15:
+            c["scv"] = False          # an MDQ source has no validity switch: nothing may change
+        out.append(c)
     return out
 
 
@@ -1124,18 +1310,130 @@ def fam_cold(rng, n, t0=T0):
     return out
 
 
+def fam_cv(t0=T0):
+    """Validity checking, complete product: source kind x route (load() / imp() with a dictionary / list-style item) x
+    the source's own check_validity {key ABSENT, True, False} (remote dictionaries only - no other specification
+    has the key) x the store's check_validity {on (default), off} x document {an EntitiesDescriptor with an expired,
+    a current and an undated entity; a single expired EntityDescriptor; an EntitiesDescriptor past its own
+    validUntil, loaded through the same source key after a usable document}.  Every history ends with a reload() of the same specification (reload
+    always goes through imp(), so the store-wide switch reaches a dictionary that load() had been given directly)."""
+    rng = __import__("random").Random(1105)
+    out = []
+    routes = [("load", False), ("imp", False), ("imp", True)]
+    for kind in ("remote", "inline", "file"):
+        for api, ns in routes:
+            cvs = (None, True, False) if kind == "remote" and not ns else (None,)
+            for cv, scv, shape in itertools.product(cvs, (True, False), ("mixed", "single", "oldgroup")):
+                def ents(vus):
+                    es = [g_ent(rng, e, t0, invalid_ok=False, vu_choices=[vu]) for e, vu in zip(IDS, vus)]
+                    for e in es:
+                        e["roles"][0]["protos"] = [SAML2P]      # something to serve in every descriptor
+                    return es
+                steps = []
+                if shape == "mixed":
+                    vus = [t0 - rng.choice([1, 1000, 10 ** 6]), t0 + 1000, None]
+                    order = [0, 1, 2]
+                    rng.shuffle(order)
+                    es = ents(vus)
+                    d = {"group": True, "vu": rng.choice([None, t0 + 5000]), "ents": [es[i] for i in order]}
+                elif shape == "single":
+                    d = {"group": False, "vu": None, "ents": ents([t0 - rng.choice([1, 1000])])[:1]}
+                else:
+                    # the SAME source (key) is loaded first with a usable document: the failing refresh below must
+                    # leave that data in effect
+                    steps.append(load(g_src(None, kind, "s1", cv=cv), doc_fetch(
+                        {"group": True, "vu": None, "ents": ents([None, t0 - 50])[:2]}), ns, api))
+                    d = {"group": True, "vu": t0 - rng.choice([1, 5, 10 ** 5]), "ents": ents([None, None, t0 + 99])}
+                src = g_src(None, kind, "s1", cv=cv)
+                steps.append(load(src, doc_fetch(d), ns, api))
+                steps.append(reload_([(src, doc_fetch(d))], ns))
+                c = mk("cv", steps, t0)
+                c["scv"] = scv
+                out.append(c)
+    # an MDQ source has no validity switch at all: expired answers are never served, whatever the store says
+    for scv, api, form in itertools.product((True, False), ("load", "imp"), ("dict", "pos")):
+        tbl = [[e, _single(g_ent(rng, e, t0, invalid_ok=False, vu_choices=[vu]))] for e, vu in zip(IDS, [t0 - 7, None, t0 + 500])]
+        src = dict(g_src(None, "mdq", "q1", period=3600 if form == "dict" else 43200), form=form)
+        c = mk("cv", [{"op": "server", "tbl": tbl}, load(src, {"st": "missing"}, False, api), {"op": "tick", "dt": 600}], t0)
+        c["scv"] = scv
+        out.append(c)
+    return out
+
+
+def fam_zone():
+    """The process time zone.  (1) Zones with daylight saving (both hemispheres, a half-hour one), MDQ source with
+    freshness period p in {10 min, 1 h, 12 h}, the first fetch at t0 with t0 + p just before / at the start of / in
+    the middle of / at the last second of / just after the stretch of UTC readings that the local calendar skips;
+    the server's answers change, the clock goes to p + 1 s (the entry has run out) and on by the length of the
+    shift.  (2) Fixed-offset zones on both sides of UTC (incl. +14, -12, +5:45): MDQ and static histories with
+    validUntil one second before / at / after now."""
+    rng = __import__("random").Random(1108)
+    out = []
+
+    def table(t0):
+        es = [g_ent(rng, e, t0, invalid_ok=False, vu_choices=[None]) for e in IDS]
+        for e in es:
+            e["roles"][0]["protos"] = [SAML2P]
+        return [[e["id"], _single(e)] for e in es]
+
+    def edge_doc(t0):
+        es = [g_ent(rng, e, t0, invalid_ok=False, vu_choices=[vu]) for e, vu in zip(IDS, [t0 - 1, t0, t0 + 1])]
+        for e in es:
+            e["roles"][0]["protos"] = [SAML2P]
+        return doc_fetch({"group": True, "vu": rng.choice([None, t0, t0 + 1]), "ents": es})
+
+    for tz in ZONES_DST:
+        a, ln, sh = year_gap(tz)
+        for p in (600, 3600, 43200):
+            for at in (a - 1, a, a + ln // 2, a + ln - 1, a + ln):
+                t0 = at - p
+                steps = []
+                if rng.random() < 0.5:
+                    steps.append(load(g_src(None, rng.choice(["inline", "file", "remote"]), "s1"), edge_doc(t0), False, "load"))
+                steps += [{"op": "server", "tbl": table(t0)},
+                          load(g_src(None, "mdq", "q1", period=p), {"st": "missing"}, False, rng.choice(["load", "imp"])),
+                          {"op": "server", "tbl": table(t0)},
+                          {"op": "tick", "dt": p + 1}, {"op": "tick", "dt": sh}]
+                c = set_zone(mk("zone", steps, t0), tz)
+                c["order"] = []
+                out.append(c)
+    for i, tz in enumerate(ZONES_FIXED):
+        for j in range(3):
+            t0 = T0 + rng.choice([0, 40000, 86400 * 200])
+            steps = [load(g_src(None, ["inline", "file", "remote"][(i + j) % 3], "s1"), edge_doc(t0), False, "load"),
+                     {"op": "server", "tbl": table(t0)},
+                     load(g_src(None, "mdq", "q1", period=3600), {"st": "missing"}, False, "load"),
+                     {"op": "server", "tbl": table(t0)},
+                     {"op": "tick", "dt": rng.choice([3600, 3601])}, {"op": "tick", "dt": 1}]
+            out.append(set_zone(mk("zone", steps, t0), tz))
+    return out
+
+
+def assign_zones(cases):
+    """a seeded share of the histories of the other families runs in a zone other than UTC (a PRNG of its own:
+    the histories themselves are not touched)"""
+    rng = __import__("random").Random(1109)
+    for c in cases:
+        if "tz" not in c and rng.random() < 0.2:
+            set_zone(c, rng.choice(ZONES_FIXED + ZONES_DST))
+    return cases
+
+
 def generate(ctx):
     rng = ctx.rng
     big = ctx.thorough
     cases = []
     cases += fam_witness()
     cases += fam_sig()
+    cases += fam_cv()
+    cases += fam_zone()
     cases += fam_doc(rng, 1500 if big else 250)
     cases += fam_multi(rng, 1200 if big else 200)
     cases += fam_fail(rng, reps=4 if big else 1)
     cases += fam_mdq(rng, 1200 if big else 220)
     cases += fam_cold(rng, 240 if big else 60)
     assign_orders(rng, cases)
+    assign_zones(cases)
     rng.shuffle(cases)            # balances the Coq shards
     return cases
 
@@ -1155,9 +1453,10 @@ def nontrivial(case, obs):
     kinds = []
     for s in case["steps"]:
         if s["op"] == "load":
-            kinds.append((s["src"]["kind"], s["ns"], s["src"]["cert"], s["fetch"]["st"], s["fetch"].get("sig")))
+            kinds.append((s["src"]["kind"], s["ns"], s.get("api"), s["src"]["cert"], s["src"]["cv"], s["fetch"]["st"],
+                          s["fetch"].get("sig")))
         elif s["op"] == "reload":
-            kinds.append(tuple((x["kind"], x["cert"], f["st"], f.get("sig")) for x, f in s["items"]))
+            kinds.append(tuple((x["kind"], x["cert"], x["cv"], f["st"], f.get("sig")) for x, f in s["items"]))
         else:
             kinds.append(s["op"])
     shapes = {}
@@ -1167,14 +1466,20 @@ def nontrivial(case, obs):
             shapes[k] = shapes.get(k, 0) + 1
     if set(shapes) <= {"U", "K", "N", "T0", "G", "Y0", "W0", "F0", "F1"}:
         return None
-    return [case["tag"], kinds, sorted(shapes.items())]
+    return [case["tag"], bool(case.get("scv", True)), case.get("tz"), kinds, sorted(shapes.items())]
 
 
 def histogram(cases, observed):
     h = {"by_tag": {}, "ops": {}, "source_kinds": {}, "sig_states": {}, "fetch_states": {}, "flags": {"ok": 0, "raised": 0},
-         "answer_shapes": {}, "steps": 0, "answers": 0, "docs": {"single": 0, "group": 0}, "entities_per_group": {}}
+         "answer_shapes": {}, "steps": 0, "answers": 0, "docs": {"single": 0, "group": 0}, "entities_per_group": {},
+         "check_validity_spelled": {}, "store_check_validity": {"on": 0, "off": 0}, "optional_key_spellings": {}}
     for c, o in zip(cases, observed):
         h["by_tag"][c["tag"]] = h["by_tag"].get(c["tag"], 0) + 1
+        h["store_check_validity"]["on" if c.get("scv", True) else "off"] += 1
+        z = h.setdefault("zones", {})
+        z[c.get("tz") or "UTC0"] = z.get(c.get("tz") or "UTC0", 0) + 1
+        if c.get("gaps"):
+            h["histories_with_a_gap_in_reach"] = h.get("histories_with_a_gap_in_reach", 0) + 1
         for s in c["steps"]:
             h["ops"][s["op"]] = h["ops"].get(s["op"], 0) + 1
             items = [(s["src"], s["fetch"])] if s["op"] == "load" else (s["items"] if s["op"] == "reload" else [])
@@ -1182,6 +1487,13 @@ def histogram(cases, observed):
                 items = [({"kind": "mdq-answer"}, f) for _e, f in s["tbl"]]
             for src, f in items:
                 h["source_kinds"][src["kind"]] = h["source_kinds"].get(src["kind"], 0) + 1
+                if src["kind"] == "remote" and not s.get("ns"):
+                    k = "absent" if src["cv"] is None else str(bool(src["cv"]))
+                    h["check_validity_spelled"][k] = h["check_validity_spelled"].get(k, 0) + 1
+                for k in ("cert_sp", "form", "period_sp"):
+                    if src.get(k):
+                        kk = "%s=%s" % (k, src[k])
+                        h["optional_key_spellings"][kk] = h["optional_key_spellings"].get(kk, 0) + 1
                 h["fetch_states"][f["st"]] = h["fetch_states"].get(f["st"], 0) + 1
                 if f["st"] == "doc":
                     key = "%s/cert=%s" % (f.get("sig"), src.get("cert"))
